@@ -143,7 +143,15 @@ fn render_all_lines(ctx: &FormatContext, c: &LuaComment, plan: &FormatPlan) -> V
                             body.push(ir::space());
                         }
                     } else {
-                        let spaces = inter_token_spaces(plan, prev.as_ref(), &tok, had_ws);
+                        // The first token of a line has no left neighbour: only the blank that
+                        // follows the prefix in the source counts. Applying the token's own
+                        // left-spacing rule here (e.g. ` - ` for an operator continuing a type)
+                        // would add one more blank on every pass.
+                        let spaces = if prev.is_none() {
+                            usize::from(had_ws)
+                        } else {
+                            inter_token_spaces(plan, prev.as_ref(), &tok, had_ws)
+                        };
                         for _ in 0..spaces {
                             body.push(ir::space());
                         }
